@@ -14,17 +14,88 @@ import (
 // a hash-only GSI, a hash+range GSI and an LSI, all on S attributes with tiny value pools so
 // that several items share an index key.
 func ixSpec(name string, withIndexes bool) adapt.TableSpec {
-	s := adapt.TableSpec{Name: name, Hash: "h", Range: "r", Billing: "PAY_PER_REQUEST"}
+	s := adapt.TableSpec{Name: name, Hash: "h", HashT: ixTypes["h"], Range: "r", RangeT: ixTypes["r"], Billing: "PAY_PER_REQUEST"}
 	if withIndexes {
 		s.Indexes = []adapt.IndexSpec{
-			{Name: "gsi1", Hash: "g"},
-			{Name: "gsi2", Hash: "g", Range: "s"},
-			{Name: "lsi1", Hash: "h", Range: "s", Local: true},
+			{Name: "gsi1", Hash: "g", HashT: ixTypes["g"]},
+			{Name: "gsi2", Hash: "g", HashT: ixTypes["g"], Range: "s", RangeT: ixTypes["s"]},
+			{Name: "lsi1", Hash: "h", HashT: ixTypes["h"], Range: "s", RangeT: ixTypes["s"], Local: true},
 			// an "inverted" index: its key attributes are the table's own key attributes
-			{Name: "gsi4", Hash: "r", Range: "h"},
+			{Name: "gsi4", Hash: "r", HashT: ixTypes["r"], Range: "h", RangeT: ixTypes["h"]},
 		}
 	}
 	return s
+}
+
+// ixIndex returns the definition of one of the shared shape's indexes with the CURRENT key types.
+func ixIndex(name string) adapt.IndexSpec {
+	for _, ix := range ixSpec("x", true).Indexes {
+		if ix.Name == name {
+			return ix
+		}
+	}
+	return adapt.IndexSpec{Name: name}
+}
+
+// ixTypes declares the types of the key attributes h, r, g, s of the shared table shape ("" = S). It is empty
+// except inside useTypedPools.
+var ixTypes = map[string]string{}
+
+// ixV renders a pool text as a value of the attribute's declared type: a string as it is, a binary as the bytes
+// of the text, a number as the text itself when it is a numeral and as a numeral derived from it otherwise.
+func ixV(attr, text string) val.V {
+	switch ixTypes[attr] {
+	case "N":
+		if _, err := val.ParseDec(text); err == nil && text != "" {
+			return val.Num(text)
+		}
+		h := 0
+		for _, b := range []byte(text) {
+			h = (h*131 + int(b)) % 100003
+		}
+		return val.Num(fmt.Sprintf("%d.%d", 5000+len(text), h))
+	case "B":
+		return val.Bin(text)
+	}
+	return val.Str(text)
+}
+
+// useTypedPools switches the shared table shape to NUMBER- and BINARY-typed key attributes (sort key r, index
+// keys g and s, sometimes the partition key h) with pools of numerals (several notations, negative, fractional,
+// prefix-related) resp. byte strings (prefix-related, 0x00 / 0xff): key conditions, index maintenance, ordering
+// and pagination then run through the typed code paths. Returns the function that restores the string pools.
+func useTypedPools(r *rand.Rand) func() {
+	h, rg, g, s, t := ixHashPool, ixRangePool, ixGPool, ixSPool, ixTypes
+	nums := []string{"1", "10", "9", "2", "-1", "1.5", "100", "0.5", "-10", "1E1"}
+	bins := []string{"\x01", "\x0a", "\x09", "\x0a\x00", "a", "ab", "\xff", "\x00"}
+	ixTypes = map[string]string{}
+	pick := func(attr string, pS int) {
+		switch k := r.Intn(100); {
+		case k < pS:
+		case k < pS+(100-pS)*2/3:
+			ixTypes[attr] = "N"
+		default:
+			ixTypes[attr] = "B"
+		}
+	}
+	pick("r", 10)
+	pick("s", 30)
+	pick("g", 50)
+	pick("h", 75)
+	pool := func(attr string, strs []string, n int) []string {
+		switch ixTypes[attr] {
+		case "N":
+			return nums[:n] // "10" and "1E1" are one value: only one of them is in a pool of up to 9
+		case "B":
+			return bins[:n]
+		}
+		return strs
+	}
+	ixRangePool = pool("r", ixRangePool, 8)
+	ixSPool = pool("s", ixSPool, 4)
+	ixGPool = pool("g", ixGPool, 2)
+	ixHashPool = pool("h", ixHashPool, 3)
+	return func() { ixHashPool, ixRangePool, ixGPool, ixSPool, ixTypes = h, rg, g, s, t }
 }
 
 var (
@@ -73,12 +144,12 @@ func useBigPools(r *rand.Rand) func() {
 
 // ixItem builds an item for ixSpec; g / s are absent when "".
 func ixItem(h, rg, g, s string, extra int) val.Item {
-	it := val.Item{"h": val.Str(h), "r": val.Str(rg)}
+	it := val.Item{"h": ixV("h", h), "r": ixV("r", rg)}
 	if g != "" {
-		it["g"] = val.Str(g)
+		it["g"] = ixV("g", g)
 	}
 	if s != "" {
-		it["s"] = val.Str(s)
+		it["s"] = ixV("s", s)
 	}
 	it["v"] = val.Num(fmt.Sprint(extra))
 	return it
@@ -94,7 +165,7 @@ func maybe(r *rand.Rand, pool []string, pAbsent int) string {
 // ixRandomWrite returns a random write op against ixSpec-shaped tables.
 func ixRandomWrite(r *rand.Rand, table string, salt int) adapt.Op {
 	h, rg := mon.Pick(r, ixHashPool), mon.Pick(r, ixRangePool)
-	key := val.Item{"h": val.Str(h), "r": val.Str(rg)}
+	key := val.Item{"h": ixV("h", h), "r": ixV("r", rg)}
 	c := r.Intn(10)
 	if ixBig && r.Intn(2) == 0 {
 		c = 0 // scaled states are mostly filled: half of the writes are puts on top of the usual mix
@@ -103,9 +174,9 @@ func ixRandomWrite(r *rand.Rand, table string, salt int) adapt.Op {
 	case 0, 1, 2, 3:
 		return adapt.Op{Kind: adapt.OpPut, Table: table, Item: ixItem(h, rg, maybe(r, ixGPool, 25), maybe(r, ixSPool, 25), salt)}
 	case 4:
-		return mon.SetUpdate(table, key, "g", val.Str(mon.Pick(r, ixGPool)))
+		return mon.SetUpdate(table, key, "g", ixV("g", mon.Pick(r, ixGPool)))
 	case 5:
-		return mon.SetUpdate(table, key, "s", val.Str(mon.Pick(r, ixSPool)))
+		return mon.SetUpdate(table, key, "s", ixV("s", mon.Pick(r, ixSPool)))
 	case 6:
 		return mon.RemoveUpdate(table, key, mon.Pick(r, []string{"g", "s"}))
 	case 7:
